@@ -449,7 +449,7 @@ def run(ctx):
                 "file. 35% of the worlds get one injected fault (invisible local, another file's private name, a second definition, a "
                 "duplicate local, a second export, an export of nothing, an undefined name). The generator computes the binding of every "
                 "reference and the image from the rules of the property. distinct = distinct program texts; non-trivial = at least one "
-                "name defined in two units or one local name defined in two scopes")
+                "name defined in two units or one local name defined in two scopes. Further families: one file compiled twice; one name exported by two different files (4 export forms x 4 x 5 places of the second file, with and without a third file that uses the name)")
     n = 2500 if ctx.thorough else 500
     reqs, jobs = [], []
     for it in range(n):
@@ -575,6 +575,64 @@ def run(ctx):
                     if len(idx) < 2:
                         ctx.violation("the copies of a private label are not each bound to their own definition", inp, expected="two self-referring copies",
                                       observed=r.code.hex())
+        finally:
+            impl.drop_scratch(d)
+
+    # ---- one name exported by two different files: every export form x every export form x where the second file comes in
+    # (linked before / after, included before the export, between a leading '.extern' and the definition it announces, after
+    # the definition) x a third file that uses the name: always a second definition of a visible name, never a silent binding
+    xrng = ctx.rng("c11-two-exports")
+    def export_text(kind, nm, val, middle=""):
+        return {"label": middle + "%s:: .word %d.\n" % (nm, val), "const": middle + "%s == %d.\n.word %s\n" % (nm, val, nm),
+                "extern-before": ".extern %s\n%s%s: .word %d.\n" % (nm, middle, nm, val),
+                "extern-after": "%s: .word %d.\n%s.extern %s\n" % (nm, val, middle, nm)}[kind]
+    kinds = ["label", "const", "extern-before", "extern-after"]
+    places = ["linked-after", "linked-before", "include-top", "include-middle", "include-end"]
+    combos = [(k1, k2, pl) for k1 in kinds for k2 in kinds for pl in places]
+    if not ctx.thorough:
+        combos = [c for c in combos if c[2] == "include-middle"] + xrng.sample([c for c in combos if c[2] != "include-middle"], 24)
+    for k1, k2, place in combos:
+        nm = xrng.choice(["X", "shared", "Tbl", "v$1", "k.k"])
+        v1, v2 = xrng.sample(range(1, 200), 2)
+        filler = xrng.choice(["", "nop\n", "1$: sob r0, 1$\n", "own: .word own\n"])
+        inc = ".include \"b.mac\"\n"
+        btext = filler + export_text(k2, nm, v2)
+        if place == "include-top":
+            atext = inc + export_text(k1, nm, v1)
+        elif place == "include-middle":
+            atext = export_text(k1, nm, v1, middle=inc)
+        elif place == "include-end":
+            atext = export_text(k1, nm, v1) + inc
+        else:
+            atext = export_text(k1, nm, v1)
+        user = xrng.choice([None, ".word %s\n" % nm, "mov #%s, r0\n" % nm.lower()])
+        d = impl.scratch_dir()
+        try:
+            ap, bp, up = os.path.join(d, "a.mac"), os.path.join(d, "b.mac"), os.path.join(d, "user.mac")
+            with open(bp, "w", encoding="utf-8") as f:
+                f.write(btext)
+            mains = [(ap, ".link 1000\n" + atext)]
+            if place == "linked-after":
+                mains.append((bp, btext))
+            elif place == "linked-before":
+                mains = [(bp, ".link 1000\n" + btext), (ap, atext)]
+            if user is not None:
+                mains.insert(xrng.randrange(len(mains) + 1) if place.startswith("include") else len(mains), (up, user))
+                if not mains[0][1].startswith(".link"):
+                    mains[0] = (mains[0][0], ".link 1000\n" + mains[0][1])
+            r = impl.assemble(mains)
+            inp = {"files": [(os.path.basename(p_), t) for p_, t in mains] + ([("b.mac", btext)] if place.startswith("include") else []), "nmain": len(mains),
+                   "first export": k1, "second export": k2, "place": place}
+            ctx.case(("two-exports", json.dumps(inp["files"])))
+            ctx.count("one name exported by two files: " + place)
+            allf = list(mains) + ([(bp, btext)] if place.startswith("include") else [])
+            reqs.append(asmrun.asm_request([("/w/" + os.path.basename(p_), t) for p_, t in allf], len(mains)))
+            jobs.append((inp, allf, r, None))
+            if r.outcome in ("crash", "hang"):
+                ctx.violation("a program in which two files export one name ended in " + r.outcome, inp, expected="a duplicate-definition error", observed=r.exc)
+            elif r.outcome == "ok" or "duplicate-symbol" not in r.error_ids():
+                ctx.violation("one name is exported by two files and no second-definition error was reported (a reference binds silently to one of them)", inp,
+                              expected="duplicate-symbol", observed=r.summary())
         finally:
             impl.drop_scratch(d)
 
